@@ -259,8 +259,8 @@ Qed.
 
 (* ---- the parser functions: no panic, boundaries in, boundaries out --------- *)
 
-Lemma parse_setting_S fixed dfx stk src f d i0 :
-  parse_setting fixed dfx stk src (S f) d i0 =
+Lemma parse_setting_S fixed dfx cw stk src f d i0 :
+  parse_setting fixed dfx cw stk src (S f) d i0 =
   (if stack_exhausted stk d then Panic else
    do i <- parse_ws src i0;
    do rest <- slice_from src i;
@@ -277,15 +277,15 @@ Lemma parse_setting_S fixed dfx stk src f d i0 :
              if dfx && (MAX_SETTING_DEPTH <=? d) then
                do sp <- mk_span i j;
                Done (Err {| ekind := UnexpectedToken 91; elocs := [sp] |})
-             else array_loop fixed dfx stk src f d i j j []
-         | None => setting_path src i
+             else array_loop fixed dfx cw stk src f d i j j []
+         | None => setting_path cw src i
          end
      end
    end).
 Proof. reflexivity. Qed.
 
-Lemma array_loop_S fixed dfx stk src f d i open_pos j0 vals :
-  array_loop fixed dfx stk src (S f) d i open_pos j0 vals =
+Lemma array_loop_S fixed dfx cw stk src f d i open_pos j0 vals :
+  array_loop fixed dfx cw stk src (S f) d i open_pos j0 vals =
   (do j <- parse_ws src j0;
    do la <- lookahead_is src RBRACK j;
    match la with
@@ -294,29 +294,29 @@ Lemma array_loop_S fixed dfx stk src f d i open_pos j0 vals :
        do csp <- mk_span j end_pos;
        Done (Ok (Array vals osp csp, end_pos))
    | None =>
-       do r <- parse_setting fixed dfx stk src f (S d) j;
+       do r <- parse_setting fixed dfx cw stk src f (S d) j;
        match r with
        | Ok (val, k) =>
            do j1 <- parse_ws src k;
            do la1 <- lookahead_is src COMMA j1;
-           array_loop fixed dfx stk src f d i open_pos (match la1 with Some k1 => k1 | None => j1 end) (vals ++ [val])
+           array_loop fixed dfx cw stk src f d i open_pos (match la1 with Some k1 => k1 | None => j1 end) (vals ++ [val])
        | Err e =>
            do la0 <- (if fixed then lookahead_is src COMMA j else Done (Some j));
            match la0 with
            | None => Done (Err e)
            | Some _ =>
                do la1 <- lookahead_is src COMMA j;
-               array_loop fixed dfx stk src f d i open_pos (match la1 with Some k1 => k1 | None => j end) vals
+               array_loop fixed dfx cw stk src f d i open_pos (match la1 with Some k1 => k1 | None => j end) vals
            end
        end
    end).
 Proof. reflexivity. Qed.
 
-Lemma section_loop_S fixed dfx stk src f i ret errs :
-  section_loop fixed dfx stk src (S f) i ret errs =
+Lemma section_loop_S fixed dfx cw stk src f i ret errs :
+  section_loop fixed dfx cw stk src (S f) i ret errs =
   (do la <- lookahead_is src RBRACE i;
    if (match la with None => true | Some _ => false end) && (i <? byte_len src) then
-     do kv <- parse_key_value fixed dfx stk src f i;
+     do kv <- parse_key_value fixed dfx cw stk src f i;
      match kv with
      | Err e => Done (inl (errs ++ [e]))
      | Ok (key, key_loc, val, j) =>
@@ -329,7 +329,7 @@ Lemma section_loop_S fixed dfx stk src f i ret errs :
          let '(ret', errs') := st in
          do la1 <- lookahead_is src COMMA j;
          match la1 with
-         | Some j1 => do i' <- parse_ws src j1; section_loop fixed dfx stk src f i' ret' errs'
+         | Some j1 => do i' <- parse_ws src j1; section_loop fixed dfx cw stk src f i' ret' errs'
          | None => do i' <- parse_ws src j; Done (inr (i', ret', errs'))
          end
      end
@@ -515,8 +515,8 @@ Proof.
   constructor; [apply span_wf_of; auto; lia | constructor].
 Qed.
 
-Lemma setting_path_spec i lo : bnd i -> lo <= i ->
-  exists r, setting_path src i = Done r /\ good lo r.
+Lemma setting_path_spec cw i lo : bnd i -> lo <= i ->
+  exists r, setting_path cw src i = Done r /\ good lo r.
 Proof.
   intros Hb Hlo. unfold setting_path.
   destruct (parse_namespaced_spec i Hb) as (r & Hr & Hg). rewrite Hr. cbn [obind].
@@ -526,7 +526,10 @@ Proof.
   la_step LPAREN Hb1 as o Ho.
   destruct o as [j1|].
   - destruct Ho as (Hbj1 & Hj1).
-    destruct (parse_namespaced_spec j1 Hbj1) as (r2 & Hr2 & Hg2). rewrite Hr2. cbn [obind].
+    assert (Hcw : exists j1', (if cw then parse_ws src j1 else Done j1) = Done j1' /\ bnd j1' /\ j1 <= j1').
+    { destruct cw; [apply parse_ws_spec; exact Hbj1 | exists j1; auto]. }
+    destruct Hcw as (j1' & Hcw & Hbj1' & Hle1'). rewrite Hcw. cbn [obind].
+    destruct (parse_namespaced_spec j1' Hbj1') as (r2 & Hr2 & Hg2). rewrite Hr2. cbn [obind].
     destruct r2 as [[arg j2]|e]; [|eexists; split; [reflexivity | exact Hg2]].
     destruct Hg2 as (Hbj2 & Hij2 & Hsp2).
     ws_step Hbj2 as i2 Hb2 Hle2.
@@ -543,12 +546,12 @@ Proof.
     split; [exact Hb1|]. split; [lia | exact Hsp].
 Qed.
 
-Lemma setting_master fixed dfx stk : forall fuel,
+Lemma setting_master fixed dfx cw stk : forall fuel,
   (forall d i0, bnd i0 ->
-     safe fixed stk (parse_setting fixed dfx stk src fuel d i0) (good i0) (2 * (len - i0) + 1) fuel) /\
+     safe fixed stk (parse_setting fixed dfx cw stk src fuel d i0) (good i0) (2 * (len - i0) + 1) fuel) /\
   (forall d i open_pos j0 vals, bnd i -> bnd open_pos -> bnd j0 -> i <= open_pos -> open_pos <= j0 ->
      Forall (span_wf src) (flat_map setting_spans vals) ->
-     safe fixed stk (array_loop fixed dfx stk src fuel d i open_pos j0 vals) (good j0) (2 * (len - j0) + 2) fuel).
+     safe fixed stk (array_loop fixed dfx cw stk src fuel d i open_pos j0 vals) (good j0) (2 * (len - j0) + 2) fuel).
 Proof.
   induction fuel as [|f [IHs IHa]].
   - split; intros; simpl; right; lia.
@@ -585,7 +588,7 @@ Proof.
         constructor; [apply span_wf_of; auto; lia | exact Hvals].
       * specialize (IHs (S d) j Hbj).
         pose proof (boundary_le _ _ Hbj) as Hjl.
-        destruct (parse_setting fixed dfx stk src f (S d) j) as [r| |] eqn:Eps; cbn [obind]; simpl in IHs.
+        destruct (parse_setting fixed dfx cw stk src f (S d) j) as [r| |] eqn:Eps; cbn [obind]; simpl in IHs.
         -- destruct r as [[val k]|e].
            ++ destruct IHs as (Hbk & Hjk & Hsv).
               ws_step Hbk as j1 Hbj1 Hle1.
@@ -613,7 +616,7 @@ Proof.
                                          | exists j; repeat split; auto]. }
                  destruct Hn as (jn & Hjn & Hbjn & Hlen). rewrite Hjn.
                  specialize (IHa d i open_pos jn vals Hbi Hbo Hbjn Hio ltac:(lia) Hvals).
-                 destruct (array_loop false dfx stk src f d i open_pos jn vals) as [r| |]; simpl; simpl in IHa.
+                 destruct (array_loop false dfx cw stk src f d i open_pos jn vals) as [r| |]; simpl; simpl in IHa.
                  --- eapply good_mono; [exact IHa | lia].
                  --- left; reflexivity.
                  --- left; reflexivity.
@@ -621,9 +624,9 @@ Proof.
         -- destruct IHs as [H|H]; [left; exact H | right; lia].
 Qed.
 
-Lemma parse_setting_spec fixed dfx stk fuel d i0 : bnd i0 ->
-  safe fixed stk (parse_setting fixed dfx stk src fuel d i0) (good i0) (2 * (len - i0) + 1) fuel.
-Proof. intros H. apply (proj1 (setting_master fixed dfx stk fuel)). exact H. Qed.
+Lemma parse_setting_spec fixed dfx cw stk fuel d i0 : bnd i0 ->
+  safe fixed stk (parse_setting fixed dfx cw stk src fuel d i0) (good i0) (2 * (len - i0) + 1) fuel.
+Proof. intros H. apply (proj1 (setting_master fixed dfx cw stk fuel)). exact H. Qed.
 
 Definition good_kv (i : nat) (r : res (list N * span * value * nat)) : Prop :=
   match r with
@@ -632,8 +635,8 @@ Definition good_kv (i : nat) (r : res (list N * span * value * nat)) : Prop :=
   | Err e => err_wf e
   end.
 
-Lemma parse_key_value_spec fixed dfx stk fuel i : bnd i ->
-  safe fixed stk (parse_key_value fixed dfx stk src fuel i) (good_kv i) (2 * (len - i) + 1) fuel.
+Lemma parse_key_value_spec fixed dfx cw stk fuel i : bnd i ->
+  safe fixed stk (parse_key_value fixed dfx cw stk src fuel i) (good_kv i) (2 * (len - i) + 1) fuel.
 Proof.
   intros Hb. unfold parse_key_value.
   la_step BANG Hb as o Ho.
@@ -656,9 +659,9 @@ Proof.
     la_step COLON Hb1 as o1 Ho1.
     destruct o1 as [j1|].
     + destruct Ho1 as (Hbj1 & Hj1). change (byte_len COLON) with 1 in Hj1.
-      pose proof (parse_setting_spec fixed dfx stk fuel 0 j1 Hbj1) as Hps.
+      pose proof (parse_setting_spec fixed dfx cw stk fuel 0 j1 Hbj1) as Hps.
       pose proof (boundary_le _ _ Hbj1) as Hj1l.
-      destruct (parse_setting fixed dfx stk src fuel 0 j1) as [r2| |]; cbn [obind]; simpl in Hps.
+      destruct (parse_setting fixed dfx cw stk src fuel 0 j1) as [r2| |]; cbn [obind]; simpl in Hps.
       * destruct r2 as [[val j2]|e]; simpl; [|exact Hps].
         destruct Hps as (Hb2 & Hlt & Hsp).
         split; [exact Hb2|]. split; [lia|].
@@ -747,8 +750,8 @@ Definition good_loop (i : nat) (st : list herror + (nat * header * list herror))
   | inr (i', ret, errs) => bnd i' /\ i <= i' /\ hdr_wf ret /\ errs_wf errs
   end.
 
-Lemma section_loop_spec fixed dfx stk : forall fuel i ret errs, bnd i -> hdr_wf ret -> errs_wf errs ->
-  safe fixed stk (section_loop fixed dfx stk src fuel i ret errs) (good_loop i) (2 * (len - i) + 2) fuel.
+Lemma section_loop_spec fixed dfx cw stk : forall fuel i ret errs, bnd i -> hdr_wf ret -> errs_wf errs ->
+  safe fixed stk (section_loop fixed dfx cw stk src fuel i ret errs) (good_loop i) (2 * (len - i) + 2) fuel.
 Proof.
   induction fuel as [|f IH]; intros i ret errs Hb Hret Herrs.
   - simpl. right. lia.
@@ -756,8 +759,8 @@ Proof.
     la_step RBRACE Hb as o Ho.
     destruct ((match o with None => true | Some _ => false end) && (i <? len)) eqn:Ec;
       [|simpl; repeat split; auto].
-    pose proof (parse_key_value_spec fixed dfx stk f i Hb) as Hkv.
-    destruct (parse_key_value fixed dfx stk src f i) as [kv| |]; cbn [obind]; simpl in Hkv.
+    pose proof (parse_key_value_spec fixed dfx cw stk f i Hb) as Hkv.
+    destruct (parse_key_value fixed dfx cw stk src f i) as [kv| |]; cbn [obind]; simpl in Hkv.
     + destruct kv as [[[[key key_loc] val] j]|e].
       * destruct Hkv as (Hbj & Hij & Hkl & Hvs).
         pose proof (boundary_le _ _ Hbj) as Hjl.
@@ -847,8 +850,8 @@ Qed.
 Lemma bnd_0 : bnd 0.
 Proof. exists [], src. split; reflexivity. Qed.
 
-Lemma parse_spec fixed dfx stk required fuel :
-  safe fixed stk (parse fixed dfx stk src required fuel) good_res (2 * len + 3) fuel.
+Lemma parse_spec fixed dfx cw stk required fuel :
+  safe fixed stk (parse fixed dfx cw stk src required fuel) good_res (2 * len + 3) fuel.
 Proof.
   unfold parse.
   ws_step bnd_0 as w0 Hbw Hlew.
@@ -860,9 +863,9 @@ Proof.
     destruct o1 as [j|].
     + destruct Ho1 as (Hbj & Hj).
       ws_step Hbj as i1 Hb1 Hle1.
-      pose proof (section_loop_spec fixed dfx stk fuel i1 [] [] Hb1) as Hl.
+      pose proof (section_loop_spec fixed dfx cw stk fuel i1 [] [] Hb1) as Hl.
       specialize (Hl ltac:(constructor) ltac:(constructor)).
-      destruct (section_loop fixed dfx stk src fuel i1 [] []) as [st| |]; cbn [obind]; simpl in Hl.
+      destruct (section_loop fixed dfx cw stk src fuel i1 [] []) as [st| |]; cbn [obind]; simpl in Hl.
       * destruct st as [es|[[i2 ret] errs]].
         -- destruct Hl as (H1 & H2). simpl. apply good_res_errs; assumption.
         -- destruct Hl as (Hb2 & Hle2 & Hret & Herrs).
@@ -891,12 +894,12 @@ Proof. intros H. destruct o; simpl; [apply H | reflexivity | reflexivity]. Qed.
 (* every call of parse_setting runs at depth <= MAX_SETTING_DEPTH and every array
    loop at depth < MAX_SETTING_DEPTH: the stack check of a stack with more than
    MAX_SETTING_DEPTH frames never fires *)
-Lemma depth_setting_master fixed src s : MAX_SETTING_DEPTH < s -> forall fuel,
+Lemma depth_setting_master fixed cw src s : MAX_SETTING_DEPTH < s -> forall fuel,
   (forall d i0, d <= MAX_SETTING_DEPTH ->
-     parse_setting fixed true (Some s) src fuel d i0 = parse_setting fixed true None src fuel d i0) /\
+     parse_setting fixed true cw (Some s) src fuel d i0 = parse_setting fixed true cw None src fuel d i0) /\
   (forall d i open_pos j0 vals, d < MAX_SETTING_DEPTH ->
-     array_loop fixed true (Some s) src fuel d i open_pos j0 vals =
-     array_loop fixed true None src fuel d i open_pos j0 vals).
+     array_loop fixed true cw (Some s) src fuel d i open_pos j0 vals =
+     array_loop fixed true cw None src fuel d i open_pos j0 vals).
 Proof.
   intros Hs. induction fuel as [|f [IHs IHa]].
   - split; intros; reflexivity.
@@ -920,25 +923,25 @@ Proof.
         apply obind_ext; intros la1. apply IHa. exact Hd.
 Qed.
 
-Lemma depth_key_value fixed src s fuel i : MAX_SETTING_DEPTH < s ->
-  parse_key_value fixed true (Some s) src fuel i = parse_key_value fixed true None src fuel i.
+Lemma depth_key_value fixed cw src s fuel i : MAX_SETTING_DEPTH < s ->
+  parse_key_value fixed true cw (Some s) src fuel i = parse_key_value fixed true cw None src fuel i.
 Proof.
   intros Hs. unfold parse_key_value.
   apply obind_ext; intros la. destruct la as [j|]; [reflexivity|].
   apply obind_ext; intros r. destruct r as [[key_name j]|e]; [|reflexivity].
   apply obind_ext; intros key_span. apply obind_ext; intros i1. apply obind_ext; intros la1.
   destruct la1 as [j1|]; [|reflexivity].
-  rewrite (proj1 (depth_setting_master fixed src s Hs fuel)) by lia. reflexivity.
+  rewrite (proj1 (depth_setting_master fixed cw src s Hs fuel)) by lia. reflexivity.
 Qed.
 
-Lemma depth_section_loop fixed src s : MAX_SETTING_DEPTH < s -> forall fuel i ret errs,
-  section_loop fixed true (Some s) src fuel i ret errs =
-  section_loop fixed true None src fuel i ret errs.
+Lemma depth_section_loop fixed cw src s : MAX_SETTING_DEPTH < s -> forall fuel i ret errs,
+  section_loop fixed true cw (Some s) src fuel i ret errs =
+  section_loop fixed true cw None src fuel i ret errs.
 Proof.
   intros Hs. induction fuel as [|f IH]; intros i ret errs; [reflexivity|].
   rewrite !section_loop_S. apply obind_ext; intros la.
   destruct ((match la with None => true | Some _ => false end) && (i <? byte_len src)); [|reflexivity].
-  rewrite (depth_key_value fixed src s f i Hs).
+  rewrite (depth_key_value fixed cw src s f i Hs).
   apply obind_ext; intros kv. destruct kv as [[[[key key_loc] val] j]|e]; [|reflexivity].
   apply obind_ext; intros st. destruct st as [ret' errs'].
   apply obind_ext; intros la1. destruct la1 as [j1|]; [|reflexivity].
@@ -947,20 +950,20 @@ Qed.
 
 Lemma header_depth_bounded : header_depth_bounded_stmt.
 Proof.
-  intros fixed src required fuel s Hs. unfold parse_header_gen, parse.
+  intros fixed cw src required fuel s Hs. unfold parse_header_gen, parse.
   apply obind_ext; intros w0. apply obind_ext; intros la. destruct la as [i0|]; [|reflexivity].
   apply obind_ext; intros i. cbv zeta. apply obind_ext; intros la1. destruct la1 as [j|]; [|reflexivity].
-  apply obind_ext; intros i1. rewrite (depth_section_loop fixed src s Hs). reflexivity.
+  apply obind_ext; intros i1. rewrite (depth_section_loop fixed cw src s Hs). reflexivity.
 Qed.
 
 (* ---- the theorems ---------------------------------------------------------- *)
 
-Lemma header_total_unbounded dfx src required : exists r,
-  parse_header_gen true dfx required None (fuel_for src) src = Done r /\ (is_ok r \/ errors r <> []).
+Lemma header_total_unbounded dfx cw src required : exists r,
+  parse_header_gen true dfx cw required None (fuel_for src) src = Done r /\ (is_ok r \/ errors r <> []).
 Proof.
   unfold parse_header_gen.
-  pose proof (parse_spec src true dfx None required (fuel_for src)) as H.
-  destruct (parse true dfx None src required (fuel_for src)) as [r| |]; simpl in H.
+  pose proof (parse_spec src true dfx cw None required (fuel_for src)) as H.
+  destruct (parse true dfx cw None src required (fuel_for src)) as [r| |]; simpl in H.
   - exists r. split; [reflexivity|]. apply H.
   - destruct H as [H|H]; [discriminate | congruence].
   - destruct H as [H|H]; [discriminate | unfold fuel_for in H; lia].
@@ -968,35 +971,35 @@ Qed.
 
 Lemma header_total : header_total_stmt.
 Proof.
-  intros dfx stack src required Hfit. destruct stack as [s|].
+  intros dfx cw stack src required Hfit. destruct stack as [s|].
   - destruct Hfit as (Hd & Hs). subst dfx.
-    rewrite (header_depth_bounded true src required (fuel_for src) s Hs).
+    rewrite (header_depth_bounded true cw src required (fuel_for src) s Hs).
     apply header_total_unbounded.
   - apply header_total_unbounded.
 Qed.
 
-Lemma header_never_panics_unbounded dfx src required fuel :
-  parse_header_gen true dfx required None fuel src <> Panic.
+Lemma header_never_panics_unbounded dfx cw src required fuel :
+  parse_header_gen true dfx cw required None fuel src <> Panic.
 Proof.
   unfold parse_header_gen.
-  pose proof (parse_spec src true dfx None required fuel) as H.
-  destruct (parse true dfx None src required fuel) as [r| |]; simpl in H; try discriminate.
+  pose proof (parse_spec src true dfx cw None required fuel) as H.
+  destruct (parse true dfx cw None src required fuel) as [r| |]; simpl in H; try discriminate.
   destruct H as [H|H]; [discriminate | congruence].
 Qed.
 
 Lemma header_never_panics : header_never_panics_stmt.
 Proof.
-  intros dfx stack src required fuel Hfit. destruct stack as [s|].
+  intros dfx cw stack src required fuel Hfit. destruct stack as [s|].
   - destruct Hfit as (Hd & Hs). subst dfx.
-    rewrite (header_depth_bounded true src required fuel s Hs).
+    rewrite (header_depth_bounded true cw src required fuel s Hs).
     apply header_never_panics_unbounded.
   - apply header_never_panics_unbounded.
 Qed.
 
 Lemma header_spans_wellformed : header_spans_wellformed_stmt.
 Proof.
-  intros fixed dfx stack src required fuel r Hr. unfold parse_header_gen in Hr.
-  pose proof (parse_spec src fixed dfx stack required fuel) as H.
+  intros fixed dfx cw stack src required fuel r Hr. unfold parse_header_gen in Hr.
+  pose proof (parse_spec src fixed dfx cw stack required fuel) as H.
   rewrite Hr in H. simpl in H. destruct H as (H1 & H2 & _). split; assumption.
 Qed.
 
@@ -1011,31 +1014,31 @@ Qed.
 
 (* what the repaired parser answers on the two witnesses (with and without the
    nesting limit) *)
-Example fixed_on_hang_witness : forall dfx,
-  parse_header_fixed dfx false (fuel_for HANG_WITNESS) HANG_WITNESS =
+Example fixed_on_hang_witness : forall dfx cw,
+  parse_header_fixed dfx cw false (fuel_for HANG_WITNESS) HANG_WITNESS =
   Done (HErrs [{| ekind := IllegalName; elocs := [(14, 14)] |}]).
-Proof. intros [|]; vm_compute; reflexivity. Qed.
+Proof. intros [|] [|]; vm_compute; reflexivity. Qed.
 
-Example fixed_on_panic_witness : forall dfx,
-  parse_header_fixed dfx false (fuel_for PANIC_WITNESS) PANIC_WITNESS =
+Example fixed_on_panic_witness : forall dfx cw,
+  parse_header_fixed dfx cw false (fuel_for PANIC_WITNESS) PANIC_WITNESS =
   Done (HErrs [{| ekind := ConversionError; elocs := [(13, 36)] |}]).
-Proof. intros [|]; vm_compute; reflexivity. Qed.
+Proof. intros [|] [|]; vm_compute; reflexivity. Qed.
 
 (* a successful parse (the three outcome classes are inhabited):
    %grmtools{a: [1, B::C]} *)
-Example fixed_ok_example : forall dfx,
-  parse_header_fixed dfx true 60
+Example fixed_ok_example : forall dfx cw,
+  parse_header_fixed dfx cw true 60
     [37; 103; 114; 109; 116; 111; 111; 108; 115; 123; 97; 58; 32; 91; 49; 44; 32; 66; 58; 58; 67; 93; 125]%N =
   Done (HOk [([97%N], ((10, 11),
                 SettingV (Array [Num 1 (14, 15);
                                  Unitary {| ns_namespace := Some ([98%N], (17, 18)); ns_member := ([99%N], (20, 21)) |}]
                                 (13, 14) (21, 22))))] 23).
-Proof. intros [|]; vm_compute; reflexivity. Qed.
+Proof. intros [|] [|]; vm_compute; reflexivity. Qed.
 
 (* ---- stronger: no fuel is enough for the unterminated array ---------------- *)
 
 Lemma hang_setting_at_end f d :
-  parse_setting false false None HANG_WITNESS f d 14 =
+  parse_setting false false false None HANG_WITNESS f d 14 =
   match f with
   | 0 => OutOfFuel
   | S _ => Done (Err {| ekind := IllegalName; elocs := [(14, 14)] |})
@@ -1043,11 +1046,11 @@ Lemma hang_setting_at_end f d :
 Proof.
   destruct f as [|f]; [reflexivity|].
   rewrite parse_setting_S.
-  remember (array_loop false false None HANG_WITNESS f) as AL eqn:HAL. clear HAL.
+  remember (array_loop false false false None HANG_WITNESS f) as AL eqn:HAL. clear HAL.
   vm_compute. reflexivity.
 Qed.
 
-Lemma hang_array_loop : forall f d, array_loop false false None HANG_WITNESS f d 13 14 14 [] = OutOfFuel.
+Lemma hang_array_loop : forall f d, array_loop false false false None HANG_WITNESS f d 13 14 14 [] = OutOfFuel.
 Proof.
   induction f as [|f IH]; intros d; [reflexivity|].
   rewrite array_loop_S.
@@ -1059,7 +1062,7 @@ Proof.
   apply IH.
 Qed.
 
-Lemma hang_setting : forall f d, parse_setting false false None HANG_WITNESS f d 12 = OutOfFuel.
+Lemma hang_setting : forall f d, parse_setting false false false None HANG_WITNESS f d 12 = OutOfFuel.
 Proof.
   intros f d. destruct f as [|f]; [reflexivity|].
   rewrite parse_setting_S. cbn [stack_exhausted].
@@ -1071,7 +1074,7 @@ Proof.
   apply hang_array_loop.
 Qed.
 
-Lemma hang_key_value : forall f, parse_key_value false false None HANG_WITNESS f 10 = OutOfFuel.
+Lemma hang_key_value : forall f, parse_key_value false false false None HANG_WITNESS f 10 = OutOfFuel.
 Proof.
   intros f. unfold parse_key_value.
   change (lookahead_is HANG_WITNESS BANG 10) with (Done None : outcome (option nat)). cbn [obind].
@@ -1082,7 +1085,7 @@ Proof.
   rewrite hang_setting. reflexivity.
 Qed.
 
-Lemma hang_section_loop : forall f, section_loop false false None HANG_WITNESS f 10 [] [] = OutOfFuel.
+Lemma hang_section_loop : forall f, section_loop false false false None HANG_WITNESS f 10 [] [] = OutOfFuel.
 Proof.
   intros f. destruct f as [|f]; [reflexivity|].
   rewrite section_loop_S.
@@ -1126,10 +1129,10 @@ Lemma lookahead_at src s i rest : at_pos src i rest ->
 Proof. intros Hat. unfold lookahead_is. rewrite (slice_from_at _ _ _ Hat). reflexivity. Qed.
 
 (* parse_setting on a '[' (no nesting limit): the array loop, one frame up *)
-Lemma setting_at_lbrack fixed stk src f d i rest :
+Lemma setting_at_lbrack fixed cw stk src f d i rest :
   at_pos src i (91%N :: rest) ->
-  parse_setting fixed false stk src (S f) d i =
-  if stack_exhausted stk d then Panic else array_loop fixed false stk src f d i (i + 1) (i + 1) [].
+  parse_setting fixed false cw stk src (S f) d i =
+  if stack_exhausted stk d then Panic else array_loop fixed false cw stk src f d i (i + 1) (i + 1) [].
 Proof.
   intros Hat. rewrite parse_setting_S. destruct (stack_exhausted stk d); [reflexivity|].
   rewrite (parse_ws_at _ _ _ _ Hat) by reflexivity. cbn [obind].
@@ -1141,10 +1144,10 @@ Proof.
 Qed.
 
 (* the array loop standing on a '[' calls parse_setting one level deeper *)
-Lemma array_at_lbrack_panics fixed stk src f d i o j rest vals :
+Lemma array_at_lbrack_panics fixed cw stk src f d i o j rest vals :
   at_pos src j (91%N :: rest) ->
-  parse_setting fixed false stk src f (S d) j = Panic ->
-  array_loop fixed false stk src (S f) d i o j vals = Panic.
+  parse_setting fixed false cw stk src f (S d) j = Panic ->
+  array_loop fixed false cw stk src (S f) d i o j vals = Panic.
 Proof.
   intros Hat Hp. rewrite array_loop_S.
   rewrite (parse_ws_at _ _ _ _ Hat) by reflexivity. cbn [obind].
@@ -1154,15 +1157,15 @@ Proof.
 Qed.
 
 (* m '[' ahead at depth d: the recursion reaches depth d + m - 1 *)
-Lemma deep_setting_panics fixed src s : forall m d f i rest,
+Lemma deep_setting_panics fixed cw src s : forall m d f i rest,
   at_pos src i (repeat 91%N m ++ rest) -> s < d + m -> 2 * m + 1 <= f ->
-  parse_setting fixed false (Some s) src f d i = Panic.
+  parse_setting fixed false cw (Some s) src f d i = Panic.
 Proof.
   induction m as [|m IH]; intros d f i rest Hat Hs Hf.
   - destruct f as [|f]; [lia|]. rewrite parse_setting_S. unfold stack_exhausted.
     replace (s <=? d) with true by (symmetry; apply Nat.leb_le; lia). reflexivity.
   - destruct f as [|f]; [lia|]. cbn [repeat app] in Hat.
-    rewrite (setting_at_lbrack _ _ _ _ _ _ _ Hat). unfold stack_exhausted.
+    rewrite (setting_at_lbrack _ _ _ _ _ _ _ _ Hat). unfold stack_exhausted.
     destruct (s <=? d) eqn:E; [reflexivity|]. apply Nat.leb_gt in E.
     destruct f as [|f]; [lia|].
     destruct m as [|m']; [lia|].
@@ -1191,7 +1194,7 @@ Proof. repeat split; vm_compute; reflexivity. Qed.
 
 Lemma header_depth_unbounded_refuted : header_depth_unbounded_refuted_stmt.
 Proof.
-  intros s fixed required fuel Hf.
+  intros s fixed cw required fuel Hf.
   assert (Hlen : byte_len (DEEP_WITNESS (S s)) = 12 + S s).
   { unfold DEEP_WITNESS. rewrite byte_len_app, byte_len_repeat_ascii. reflexivity. }
   unfold fuel_for in Hf. rewrite Hlen in Hf.
@@ -1205,7 +1208,7 @@ Proof.
   rewrite F8; cbn [obind]. rewrite F9; cbn [obind].
   change (mk_span 10 11) with (Done (10, 11) : outcome span). cbn [obind].
   rewrite F10; cbn [obind]. rewrite F11; cbn [obind].
-  rewrite (deep_setting_panics fixed (DEEP_HDR ++ repeat 91%N (S s)) s (S s) 0 f 12 []).
+  rewrite (deep_setting_panics fixed cw (DEEP_HDR ++ repeat 91%N (S s)) s (S s) 0 f 12 []).
   - reflexivity.
   - exists DEEP_HDR. split; [rewrite app_nil_r; reflexivity | reflexivity].
   - lia.
@@ -1213,22 +1216,22 @@ Proof.
 Qed.
 
 Lemma header_depth_bound_tight : header_depth_bound_tight_stmt.
-Proof. exists (DEEP_WITNESS 65). intros [|]; vm_compute; reflexivity. Qed.
+Proof. exists (DEEP_WITNESS 65). intros [|] [|]; vm_compute; reflexivity. Qed.
 
 (* with the limit, on a stack of MAX_SETTING_DEPTH + 1 frames: the 65th '[' of
    1000 is reported (at its position, 12 + 64); 64 levels are accepted *)
 Example depth_fixed_on_deep_witness :
-  parse_header_gen true true false (Some 65) (fuel_for (DEEP_WITNESS 1000)) (DEEP_WITNESS 1000) =
+  parse_header_gen true true true false (Some 65) (fuel_for (DEEP_WITNESS 1000)) (DEEP_WITNESS 1000) =
   Done (HErrs [{| ekind := UnexpectedToken 91; elocs := [(76, 77)] |}]).
 Proof. vm_compute. reflexivity. Qed.
 
 Example depth_fixed_accepts_64_levels :
   let src := DEEP_HDR ++ repeat 91%N 64 ++ repeat 93%N 64 ++ [125%N] in
-  exists h, parse_header_gen true true false (Some 65) (fuel_for src) src = Done (HOk h 141).
+  exists h, parse_header_gen true true true false (Some 65) (fuel_for src) src = Done (HOk h 141).
 Proof. eexists. vm_compute. reflexivity. Qed.
 
 Example depth_fixed_rejects_65_levels :
   let src := DEEP_HDR ++ repeat 91%N 65 ++ repeat 93%N 65 ++ [125%N] in
-  parse_header_gen true true false (Some 65) (fuel_for src) src =
+  parse_header_gen true true true false (Some 65) (fuel_for src) src =
   Done (HErrs [{| ekind := UnexpectedToken 91; elocs := [(76, 77)] |}]).
 Proof. vm_compute. reflexivity. Qed.
